@@ -241,6 +241,49 @@ func propColumnNames(args []string) string {
 	if sel.String() != before {
 		return fmt.Sprintf("%q: ColumnNames changed the statement to %q", c.text(), sel.String())
 	}
+	// "a pure function of the statement": the statement is edited after the first call, through exported
+	// fields and through the in-place rewrites; the names must then be those of a twin that was edited in
+	// the same way without ever having been asked before (round-3 seeded change C20-3 memoised the names on
+	// the statement and forgot to drop them on some edits)
+	edits := []struct {
+		what string
+		do   func(s *influxql.SelectStatement)
+	}{
+		{"OmitTime flipped", func(s *influxql.SelectStatement) { s.OmitTime = !s.OmitTime }},
+		{"TimeAlias set", func(s *influxql.SelectStatement) { s.TimeAlias = "t_alias" }},
+		{"alias of the last field set", func(s *influxql.SelectStatement) {
+			if len(s.Fields) > 0 {
+				s.Fields[len(s.Fields)-1].Alias = "edited_alias"
+			}
+		}},
+		{"first field dropped", func(s *influxql.SelectStatement) {
+			if len(s.Fields) > 1 {
+				s.Fields = s.Fields[1:]
+			}
+		}},
+		{"RewriteDistinct", func(s *influxql.SelectStatement) { s.RewriteDistinct() }},
+		{"RewriteTimeFields", func(s *influxql.SelectStatement) { s.RewriteTimeFields() }},
+		{"first field replaced by a call", func(s *influxql.SelectStatement) {
+			if len(s.Fields) > 0 {
+				s.Fields[0].Expr = &influxql.Call{Name: "edited", Args: []influxql.Expr{&influxql.VarRef{Val: "v"}}}
+				s.Fields[0].Alias = ""
+			}
+		}},
+	}
+	for _, ed := range edits {
+		primed, err1 := c.statement()
+		twin, err2 := c.statement()
+		if err1 != nil || err2 != nil {
+			break
+		}
+		primed.ColumnNames()
+		ed.do(primed)
+		ed.do(twin)
+		a, b := primed.ColumnNames(), twin.ColumnNames()
+		if strings.Join(a, "\x00") != strings.Join(b, "\x00") || len(a) != len(b) {
+			return fmt.Sprintf("%q, then %s: a statement whose names were asked before the edit answers %q, one that was never asked %q", c.text(), ed.what, a, b)
+		}
+	}
 	cols := refColumns(sel)
 	offset := 1
 	if c.omitTime {
